@@ -10,6 +10,7 @@
 
 #include "myth_config.h"
 #include "myth_spinlock_func.h"
+#include "myth_verif.h"
 
 #if 0
 /* stuff needed for non-blocking version */
@@ -227,8 +228,10 @@ static inline void myth_sleep_stack_destroy(myth_sleep_stack_t * s) {
 
 static inline myth_sleep_queue_item_t myth_sleep_stack_pop(myth_sleep_stack_t * s) {
   while (1) {
+    MYTH_VERIF_POINT("sstack.pop.read", s, 0);
     myth_sleep_queue_item_t x = s->top;
     if (x == 0) return x;
+    MYTH_VERIF_POINT("sstack.pop.cas", s, x);
     if (__sync_bool_compare_and_swap(&s->top, x, x->next)) {
       return x;
     }
@@ -237,8 +240,10 @@ static inline myth_sleep_queue_item_t myth_sleep_stack_pop(myth_sleep_stack_t * 
 
 static inline long myth_sleep_stack_push(myth_sleep_stack_t * s, myth_sleep_queue_item_t x) {
   while (1) {
+    MYTH_VERIF_POINT("sstack.push.read", s, x);
     myth_sleep_queue_item_t t = s->top;
     x->next = t;
+    MYTH_VERIF_POINT("sstack.push.cas", s, x);
     if (__sync_bool_compare_and_swap(&s->top, t, x)) {
       return 0;
     }
